@@ -23,7 +23,7 @@ abbrev Node := Nat
 /-! ### (A) handles -/
 
 /-- a `monitor.Request`: the node and the identity of the `*ua.MonitoringParameters`
-    object it points to (`none` = nil) -/
+    object it points to (`none` = nil); requests may share one object -/
 structure Req where
   node : Node
   params : Option Nat
@@ -66,43 +66,30 @@ def assign (next : Nat) : List Req → List (Req × Nat)
   | [] => []
   | r :: rs => (r, next + 1) :: assign (next + 1) rs
 
-/-- `request.RequestedParameters = node.MonitoringParameters;
-     request.RequestedParameters.ClientHandle = handle` writes into the caller's object:
-    every request pointing to object `p` ends up with the handle written last -/
-def lastFor (p : Nat) : List (Req × Nat) → Option Nat
-  | [] => none
-  | (r, h) :: rest =>
-    match lastFor p rest with
-    | some h' => some h'
-    | none => if r.params = some p then some h else none
-
-/-- the ClientHandle that is on the wire for a request -/
-def wire (all : List (Req × Nat)) (r : Req) (h : Nat) : Nat :=
-  match r.params with
-  | none => h
-  | some p => (lastFor p all).getD h
-
 /-- first loop of `AddMonitorItems`: register every handle -/
 def addHandles (m : Nat → Option Node) : List (Req × Nat) → Nat → Option Node
   | [] => m
   | (r, h) :: rest => addHandles (setKey m h (some r.node)) rest
 
 /-- result loop: a failed item loses its handle; a good one is stored in `itemLookup`
-    and exists on the server with the handle that was on the wire -/
-def addResults (all : List (Req × Nat)) : List (Req × Nat) → List Bool → St → St
+    and exists on the server with the handle that was on the wire.  The request carries a
+    *copy* of the caller's MonitoringParameters (`params := *node.MonitoringParameters;
+    params.ClientHandle = handle`), so the handle on the wire is the request's own whether
+    or not several requests point to the same parameters object. -/
+def addResults : List (Req × Nat) → List Bool → St → St
   | (r, h) :: rest, ok :: oks, s =>
     if ok then
       let id := s.nextItem + 1
-      addResults all rest oks
-        { s with items := s.items ++ [⟨id, r.node, h⟩], srv := s.srv ++ [⟨id, r.node, wire all r h⟩], nextItem := id }
+      addResults rest oks
+        { s with items := s.items ++ [⟨id, r.node, h⟩], srv := s.srv ++ [⟨id, r.node, h⟩], nextItem := id }
     else
-      addResults all rest oks { s with handles := setKey s.handles h none }
+      addResults rest oks { s with handles := setKey s.handles h none }
   | _, _, s => s
 
 /-- `AddMonitorItems` with the per-item results of the server (true = Good) -/
 def add (s : St) (reqs : List Req) (oks : List Bool) : St :=
   let all := assign s.next reqs
-  addResults all all oks { s with next := s.next + reqs.length, handles := addHandles s.handles all }
+  addResults all oks { s with next := s.next + reqs.length, handles := addHandles s.handles all }
 
 /-- `AddMonitorItems` when the CreateMonitoredItems call itself fails: the handles stay -/
 def addErr (s : St) (reqs : List Req) : St :=
@@ -127,23 +114,11 @@ def remove (s : St) (ids : List Nat) : St :=
     (`none` = "handle not found" error message) -/
 def deliver (s : St) (it : SrvItem) : Option Node := s.handles it.handle
 
-/-- no two requests of one call point to the same parameters object -/
-def distinctParams : List Req → Bool
-  | [] => true
-  | r :: rs => (match r.params with
-      | none => true
-      | some p => rs.all fun q => q.params != some p) && distinctParams rs
-
 inductive Op where
   | add (reqs : List Req) (oks : List Bool)
   | addErr (reqs : List Req)
   | remove (ids : List Nat)
   deriving Repr
-
-def Op.guarded : Op → Bool
-  | .add reqs oks => distinctParams reqs && (oks.length == reqs.length)
-  | .addErr _ => true
-  | .remove _ => true
 
 def apply (s : St) : Op → St
   | .add reqs oks => add s reqs oks
